@@ -15,9 +15,12 @@ import (
 // by 1-4 persistent subscribers with differing granted QoS; subscribers are cut
 // and resumed while several messages are unacknowledged.
 
-func init() {
-	core.Register(&core.Check{ID: "C15", Expand: expandC15, Run: runC15})
-}
+// ExpandC15 and RunC15 are the broker-side half of the C15 check; the check
+// itself is registered by worlds/e2e, which adds the end-to-end half.
+func ExpandC15(t *testing.T, seed uint64, tier string) []*core.Plan { return expandC15(t, seed, tier) }
+
+// RunC15 runs a broker-side C15 plan.
+func RunC15(t *testing.T, p *core.Plan) *core.Result { return runC15(t, p) }
 
 func expandC15(_ *testing.T, seed uint64, tier string) []*core.Plan {
 	r := core.NewRand(core.Derive(seed, "plan"))
